@@ -444,7 +444,15 @@ func vc10Scenario(t *testing.T, line string) (res string) {
 		}
 		cfg[p[0]] = p[1] == "1"
 	}
-	labels := strings.Fields(parts[1])
+	labelPart, expPart, hasExp := strings.Cut(parts[1], ";")
+	labels := strings.Fields(labelPart)
+	var exp []string
+	if hasExp {
+		expPart = strings.TrimSpace(expPart)
+		if strings.HasPrefix(expPart, "exp=") {
+			exp = strings.Split(strings.TrimPrefix(expPart, "exp="), "/")
+		}
+	}
 
 	func() {
 		g := &vc10Gates{parked: map[string]chan struct{}{}}
@@ -515,9 +523,16 @@ func vc10Scenario(t *testing.T, line string) (res string) {
 		g.armed = true
 		g.mu.Unlock()
 
-		for _, l := range labels {
+		diverged := -1
+		for i, l := range labels {
 			w.step(l)
 			if len(w.errs) > 0 {
+				break
+			}
+			// the model's parked-actor set after every label (when given): stop at the first difference,
+			// before a later label could send a goroutine into a lock the model does not know to be held
+			if i < len(exp) && strings.Join(g.parkedKeys(), ",") != exp[i] {
+				diverged = i
 				break
 			}
 		}
@@ -533,21 +548,27 @@ func vc10Scenario(t *testing.T, line string) (res string) {
 		if len(errs) > 0 {
 			res = "HARNESS-ERR " + strings.Join(errs, ",") + " " + res
 		}
+		if diverged >= 0 {
+			res += fmt.Sprintf(" diverged=%d", diverged)
+		}
 
 		// cleanup: open all gates, let every actor finish, then close client and node
 		g.mu.Lock()
 		g.armed = false
 		g.holdWriter = false
 		g.mu.Unlock()
-		for i := 0; i < 50; i++ {
+		// release the parked actors one at a time in key order (broadcasters, subscriber, unsubscriber,
+		// writer): lock holders before lock takers, and a deterministic continuation of the schedule
+		for i := 0; i < 200; i++ {
 			ks := g.parkedKeys()
 			if len(ks) == 0 {
 				break
 			}
-			for _, k := range ks {
-				g.release(k)
-			}
+			g.release(ks[0])
 			synctest.Wait()
+		}
+		if diverged >= 0 {
+			res += " final=" + strings.Join(w.tokens(), ",")
 		}
 		_ = closeFn()
 		synctest.Wait()
